@@ -146,6 +146,8 @@ def check(rep, F, tier, replay=None):
             rep.violation("ROUND-prim", "%s|%s" % (key, want), "%s must divide with %s; it calls %s" % (key, want, sorted(set(n for n in names if n.startswith("div")) | {H_short(r) for r in raw}) or "nothing"), {})
     from ruleutil import who_assets_rule
     who_assets_rule(rep, F)
+    from ruleutil import arith_unused_rule
+    arith_unused_rule(rep, F, None)
     return rep.finish(
         EXPLANATION,
         ["BigNum's checked_* delegate to u64::checked_* (std)", "num-bigint arithmetic is exact", "wasm32 makes usize 32-bit: casts involving usize are marked target dependent in the table"],
